@@ -44,9 +44,10 @@ class C19(diffprop.Spec):
         lines += open(outp).read().split("\n")
         # (b) pools
         rc, so, se = core.run([os.path.join(core.BIN, "nvh"), "-prop", "C19", "-seed", str(seed), "-count", str(count)], timeout=900)
-        if rc != 0:
-            raise RuntimeError("nvh C19 failed: " + se[-1500:])
         lines += so.split("\n")
+        if rc != 0:  # keep what was observed before the crash: it usually holds the failing input
+            m = [l for l in se.split("\n") if l.startswith("panic:")]
+            lines.append("C19 crash harness-exit-%d %s" % (rc, (m[0] if m else se[-200:]).replace("\n", " ")))
         return [l for l in lines if l]
 
     def nontrivial(self, line, answer):
